@@ -286,6 +286,13 @@ def naming_cases(chk, root):
          {'dirA/common.prophy': 'struct P { u8 p; };\n', 'dirB/common.prophy': '->../dirA/common.prophy', 'dirA/x.prophy': '#include "common.prophy"\nstruct X { P p; };\n',
           'dirB/y.prophy': '#include "common.prophy"\nstruct Y { P p; };\n', 'main.prophy': '#include "dirA/x.prophy"\n#include "dirB/y.prophy"\nstruct M { X x; Y y; };\n'},
          'struct P { u8 p; };\nstruct X { P p; };\nstruct Y { P p; };\nstruct M { X x; Y y; };\n', 'main', 'M', []),
+        ('sibling files that are symbolic links into a store',
+         {'store/111/a.prophy': '#include "b.prophy"\nstruct A { B b; u32 c; };\n', 'store/222/b.prophy': 'struct B { u8 x; };\n',
+          'a.prophy': '->store/111/a.prophy', 'b.prophy': '->store/222/b.prophy'},
+         'struct B { u8 x; };\nstruct A { B b; u32 c; };\n', 'a', 'A', ['python']),
+        ('inputs that are links to equally named targets',
+         {'store/v1/file.prophy': 'struct A { u8 a; };\n', 'store/v2/file.prophy': 'struct B { u16 b; };\n', 'a.prophy': '->store/v1/file.prophy', 'b.prophy': '->store/v2/file.prophy'},
+         'struct A { u8 a; };\nstruct B { u16 b; };\n', 'a', 'A', ['python']),
         ('include line followed by a quoted word',
          {'b.prophy': 'struct B { u8 b; };\n', 'a.prophy': '#include "b.prophy" // the "base" types\nstruct A { B b; u16 e; };\n'},
          'struct B { u8 b; };\nstruct A { B b; u16 e; };\n', 'a', 'A', ['python', 'cpp']),
@@ -326,7 +333,7 @@ def naming_cases(chk, root):
             continue
         if 'python' in outputs:
             try:
-                mods = import_package(out, [os.path.splitext(os.path.basename(n))[0] for n in files])
+                mods = import_package(out, sorted(set(os.path.splitext(f)[0] for f in os.listdir(out) if f.endswith('.py'))))
                 ref = import_package(os.path.join(cd, 'one'), ['one'])['one']
                 a, b = getattr(mods[main], typ)(), getattr(ref, typ)()
                 if a.encode('<') != b.encode('<') or [f.name for f in a._descriptor] != [f.name for f in b._descriptor]:
